@@ -250,7 +250,7 @@ def c_repr_objects(ctx, args):
     return None
 
 
-CHECKS = {'list_forms': c_list_forms, 'repr_objects': c_repr_objects, 'poly_index': c_poly_index, 'roundtrip': c_roundtrip, 'parse_corr': c_parse_corr, 'formats': c_formats, 'index': c_index}
+CHECKS = {'ctor_fresh': __import__('props.C17', fromlist=['c_ctor_fresh']).c_ctor_fresh, 'list_forms': c_list_forms, 'repr_objects': c_repr_objects, 'poly_index': c_poly_index, 'roundtrip': c_roundtrip, 'parse_corr': c_parse_corr, 'formats': c_formats, 'index': c_index}
 
 
 def run(ctx):
@@ -316,6 +316,9 @@ def run(ctx):
         n = rng.randint(1, 5)
         rows = gen.rplist(rng, n, rng.randint(1, 4))
         do(ctx, 'list_forms', [rng.choice(['np', 'np', 'torch']), rows, ['strings', 'dicts', 'codes', 'objects', 'mixed'][it % 5], rng.randrange(10 ** 6)], nontrivial=('lf', it))
+    # the same description parsed twice gives two independent operators (the first one may have been updated in place in between)
+    for it in range(int(48 * B)):
+        do(ctx, 'ctor_fresh', [['np', 'torch'][it % 2], ['pauli_str', 'paulis_str', 'pauli'][(it // 2) % 3], rng.randint(2, 5), rng.randrange(10 ** 6), ['flip', 'library'][(it // 6) % 2]], nontrivial=('cf', it))
     for n_ in (11, 12, 17):
         for be_ in ('np', 'torch'):
             do(ctx, 'repr_objects', [be_, 'map', n_, rng.randrange(10 ** 6)], nontrivial=('rol', be_, n_))
